@@ -34,3 +34,37 @@ pub fn masks_to_vecs(ms: &[u32]) -> Vec<Vec<usize>> {
 pub fn silence_panics() {
     std::panic::set_hook(Box::new(|_| {}));
 }
+
+/// Kills every process that descends from this one (found through /proc/<pid>/stat), children first.
+pub fn kill_descendants() {
+    let me = std::process::id();
+    let mut parent_of: Vec<(u32, u32)> = vec![];
+    if let Ok(rd) = std::fs::read_dir("/proc") {
+        for e in rd.flatten() {
+            if let Ok(pid) = e.file_name().to_string_lossy().parse::<u32>() {
+                if let Ok(stat) = std::fs::read_to_string(format!("/proc/{}/stat", pid)) {
+                    // pid (comm) state ppid ...; comm may contain spaces and parentheses
+                    if let Some(rest) = stat.rfind(')').map(|i| &stat[i + 1..]) {
+                        if let Some(ppid) = rest.split_whitespace().nth(1).and_then(|t| t.parse::<u32>().ok()) {
+                            parent_of.push((pid, ppid));
+                        }
+                    }
+                }
+            }
+        }
+    }
+    let mut doomed = vec![me];
+    let mut i = 0;
+    while i < doomed.len() {
+        let p = doomed[i];
+        for (pid, ppid) in &parent_of {
+            if *ppid == p && !doomed.contains(pid) {
+                doomed.push(*pid);
+            }
+        }
+        i += 1;
+    }
+    for pid in doomed.iter().skip(1).rev() {
+        let _ = std::process::Command::new("kill").arg("-9").arg(pid.to_string()).stderr(std::process::Stdio::null()).status();
+    }
+}
